@@ -299,6 +299,10 @@ def separate_procs(sel, seed, project_display, proc_internals, hide_undoc):
     w = W()
     L += [f"type :: sptyp{S}", f"!! {w}", "integer :: c", f"end type sptyp{S}"]
     ent(f"file:sp/module:{mod}/type:sptyp{S}", [w], "show" if "private" in D else "hide", "type", f"type/sptyp{S}.html" if "private" in D else None, f"module/{mod}.html")
+    w, wc = W(), W()
+    L += [f"type :: spct{S}", f"!! {w}", "integer :: v", f"end type spct{S}", f"interface spct{S}", f"!! {wc}", f"module procedure spnew{S}", "end interface", f"private :: spnew{S}"]
+    ent(f"file:sp/module:{mod}/type:spct{S}", [w], "show" if "public" in D else "hide", "type", f"type/spct{S}.html" if "public" in D else None, f"module/{mod}.html")
+    ent(f"file:sp/module:{mod}/interface:spct{S}", [wc], "either", "interface", None, f"module/{mod}.html")
     L.append("interface")
     impl = []
     for nm, form in ((f"spa{S}", "subroutine"), (f"spb{S}", "procedure"), (f"spf{S}", "function")):
@@ -313,7 +317,8 @@ def separate_procs(sel, seed, project_display, proc_internals, hide_undoc):
         impl += [head, f"!! {wi}"] + (["integer, intent(in) :: x"] if form != "procedure" else []) + (["integer :: r"] if form == "function" else [])
         impl += [f"integer :: loc_{nm}", f"!! {wl}"] + (["r = x"] if form == "function" else []) + [f"call inner_{nm}()", "contains", f"subroutine inner_{nm}()", f"!! {wn}", f"end subroutine inner_{nm}"]
         impl += [{"subroutine": f"end subroutine {nm}", "procedure": f"end procedure {nm}", "function": f"end function {nm}"}[form]]
-        ent(f"file:sp/submodule:{sub}/mpimpl:{nm}", [wi], "either", "mpimpl")
+        # the body is an entity of the submodule, private like everything in a submodule: its own text is selected only with `private`
+        ent(f"file:sp/submodule:{sub}/mpimpl:{nm}", [wi], "either" if "private" in D else "hide", "mpimpl")
         internals_may_show = proc_internals and "private" in D  # (entities inside a submodule inherit its private default)
         ent(f"file:sp/submodule:{sub}/mpimpl:{nm}/variable:loc_{nm}", [wl], "either" if internals_may_show else "hide", "variable")
         ent(f"file:sp/submodule:{sub}/mpimpl:{nm}/proc:inner_{nm}", [wn], "either" if internals_may_show else "hide", "proc_internal")
@@ -325,6 +330,11 @@ def separate_procs(sel, seed, project_display, proc_internals, hide_undoc):
     w = W()
     L += [f"subroutine sppub{S}()", f"!! {w}", f"end subroutine sppub{S}"]
     ent(f"file:sp/module:{mod}/proc:sppub{S}", [w], "show" if "public" in D else "hide", "proc", f"proc/sppub{S}.html" if "public" in D else None, f"module/{mod}.html")
+    # a public type whose constructor (generic interface of the same name) has a private specific function with a two-paragraph comment:
+    # rendered with the type; a link to the specific's own page only if that page exists (checked by the link monitor)
+    w1, w2 = W(), W()
+    L += [f"function spnew{S}(v) result(r)", f"!! {w1}", "!!", f"!! {w2}", "integer, intent(in) :: v", f"type(spct{S}) :: r", "r%v = v", f"end function spnew{S}"]
+    ent(f"file:sp/module:{mod}/proc:spnew{S}", [w1, w2], "show" if "private" in D else "either", "proc", f"proc/spnew{S}.html" if "private" in D else None, f"module/{mod}.html")
     L.append(f"end module {mod}")
     w = W()
     L += [f"submodule ({mod}) {sub}", f"!! {w}", "implicit none", "contains"] + impl + [f"end submodule {sub}"]
